@@ -30,6 +30,7 @@ import time
 import vlib
 
 SIG_RESET = "reset-vs-subscriber-store/late-StorePipelineState"
+SIG_NOPROGRESS = "no-progress-after-failures/healthy-exporter-refused"
 INTERNAL_KINDS = ("DriverStart", "DriverStop", "ListLogsErr")
 TRACE_FIELDS = ("k", "ep", "x", "y", "ids", "ok", "name")
 
@@ -96,22 +97,22 @@ def tlc_jobs(tier):
     J = []
     W = dict(workers=4, timeout=1500 if q else 2700)
     if q:
-        J.append(("safety_L3_F1", "Replication", cfg_from("Replication_safety.cfg"), W, "hold"))
-        J.append(("safety_L2_F0_late", "Replication", cfg_from("Replication_safety.cfg", MaxLogs=2, MaxFail=0, LateAccepts="TRUE"), W, "hold"))
-        J.append(("safety_L2_F1_late_norestart", "Replication", cfg_from("Replication_safety.cfg", MaxLogs=2, LateAccepts="TRUE", MaxRestarts=0), dict(workers=2, timeout=1500), "hold"))
-        J.append(("live_L2_F0", "Replication", cfg_from("Replication_live.cfg", MaxFail=0), W, "hold"))
-        J.append(("live_L2_F1_norestart", "Replication", cfg_from("Replication_live.cfg", MaxRestarts=0), dict(workers=2, timeout=1500), "hold"))
-        J.append(("join_L2", "Replication", cfg_from("Replication_join.cfg", LateAccepts="FALSE"), W, "hold"))
+        # measured (distinct states): 46,768 / 516,857 / 22,329
+        J.append(("safety_L4_F1", "Replication", cfg_from("Replication_safety.cfg", MaxLogs=4), W, "hold"))
+        J.append(("safety_L3_F1_late", "Replication", cfg_from("Replication_safety.cfg", LateAccepts="TRUE"), W, "hold"))
+        J.append(("live_L3_F1", "Replication", cfg_from("Replication_live.cfg", MaxLogs=3), W, "hold"))
     else:
-        J.append(("safety_L4_F2", "Replication", cfg_from("Replication_safety.cfg", MaxLogs=4, MaxFail=2), dict(workers=5, timeout=2700), "hold"))
-        J.append(("safety_L3_F2_late", "Replication", cfg_from("Replication_safety.cfg", MaxLogs=3, MaxFail=2, LateAccepts="TRUE"), dict(workers=6, timeout=2700), "hold"))
-        J.append(("live_L3", "Replication", cfg_from("Replication_live.cfg", MaxLogs=3), W, "hold"))
-        J.append(("live_L2_late_F2", "Replication", cfg_from("Replication_live.cfg", MaxFail=2, LateAccepts="TRUE"), W, "hold"))
-        J.append(("join_L3", "Replication", cfg_from("Replication_join.cfg", MaxLogs=3), W, "hold"))
-    J.append(("live_reset", "Replication", cfg_from("Replication_live_reset.cfg", MaxRestarts=0), dict(workers=2, timeout=1500), "finding"))
+        # measured (distinct states): ~73k / 2,496,686 / 72,690 / 798,856
+        J.append(("safety_L4_F2", "Replication", cfg_from("Replication_safety.cfg", MaxLogs=4, MaxFail=2), W, "hold"))
+        J.append(("safety_L4_F2_late", "Replication", cfg_from("Replication_safety.cfg", MaxLogs=4, MaxFail=2, LateAccepts="TRUE"), dict(workers=6, timeout=2700), "hold"))
+        J.append(("live_L4_F2", "Replication", cfg_from("Replication_live.cfg", MaxLogs=4, MaxFail=2), W, "hold"))
+        J.append(("live_L3_F2_late", "Replication", cfg_from("Replication_live.cfg", MaxLogs=3, MaxFail=2, LateAccepts="TRUE"), dict(workers=5, timeout=2700), "hold"))
+    # the model of the code before /repo 9ae9635 (JoinSubscriber = FALSE): every one of these MUST fail, and the two
+    # schedules are forced on the real code, where they must not be reproducible any more
+    J.append(("live_reset", "Replication", cfg_from("Replication_live_reset.cfg", MaxRestarts=0), dict(workers=2, timeout=1500), "must_fail_temporal"))
     small = dict(workers=1, timeout=600)
-    J.append(("find_persisted", "Replication", cfg_from("Replication_find_persisted.cfg"), small, "finding"))
-    J.append(("find_gap", "Replication", cfg_from("Replication_find_gap.cfg"), small, "finding"))
+    J.append(("find_persisted", "Replication", cfg_from("Replication_find_persisted.cfg"), small, "must_fail:InvPersistedLeAckedSinceResetE"))
+    J.append(("find_gap", "Replication", cfg_from("Replication_find_gap.cfg"), small, "must_fail:InvNoGapSinceResetE"))
     J.append(("nc_subahead", "Replication", cfg_from("Replication_nc_subahead.cfg"), small, "must_fail:InvPersistedLeAckedE"))
     J.append(("nc_skiplog", "Replication", cfg_from("Replication_nc_skiplog.cfg"), small, "must_fail:InvBatchContiguousE"))
     J.append(("nc_advfail", "Replication", cfg_from("Replication_nc_advfail.cfg"), small, "must_fail:InvNoGapEver"))
@@ -291,6 +292,7 @@ ORACLE_TO_INV = {
     "InvNoGapSinceReset": "InvNoGapSinceReset",
     "InvPersistedLeAcked": "InvPersistedLeAcked",
     "InvPersistedLeAckedSinceReset": "InvPersistedLeAckedSinceReset",
+    "InvProgressAfterFailures": "InvProgressAfterFailures",
 }
 
 
@@ -307,6 +309,8 @@ def sig_of(sc, rejected_ev):
     findings = sc.get("findings") or []
     if any(f.get("staleStoreAfterReset") for f in findings):
         return SIG_RESET
+    if any(f["oracle"] == "InvProgressAfterFailures" for f in findings):
+        return SIG_NOPROGRESS
     if findings:
         return "%s/%s" % (findings[0]["oracle"], sc["kind"])
     if rejected_ev is not None:
@@ -391,6 +395,9 @@ def report(c, binp, work, flagged, inv, rej, validated):
         if sig == SIG_RESET:
             head = ("a StorePipelineState issued by the subscriber of a stopped pipeline took effect after ResetPipeline "
                     "had set last_log_id to NULL; ")
+        if sig == SIG_NOPROGRESS:
+            head = ("the pipeline no longer makes progress although the exporter is healthy (count-based liveness oracle, "
+                    "K=5 attempts, no time involved); ")
         text = "%s%s [scenario %s (%s); produced=%d persisted=%d acknowledged since the last reset=%s; %d scenario(s) with this signature]" % (
             head, " | ".join(parts), sc["id"], sc["kind"], obs["produced"], obs["persisted"], obs.get("gotSinceReset"), len(scs))
         c.violation(sig, text, replay)
@@ -450,24 +457,21 @@ def run(c):
                 if ("invariant", inv_name) not in r.violations:
                     raise vlib.Inconclusive("negative control %s: TLC did not report %s" % (name, inv_name))
                 cases = vlib.tlc_cases(r.out)
-                if cases:
-                    schedules.append(dict(id=name, pageSize=2, source="tlc-negative-control:" + name, steps=cases[0]))
-            elif expect == "finding":
-                if name == "live_reset":
-                    if tv:
-                        design_findings.append("LiveAllAcceptedSinceReset fails on the faithful model")
-                    continue
-                if r.violations:
-                    cases = vlib.tlc_cases(r.out)
+                if name.startswith("find_"):
                     if not cases:
                         raise vlib.Inconclusive("%s: counterexample without a schedule" % name)
-                    design_findings.append("%s fails on the faithful model (%d-step schedule)" % (r.violations[0][1], len(cases[0])))
-                    schedules.append(dict(id=name, pageSize=page_size_of(job[2]), source="tlc-counterexample:" + name, steps=cases[0]))
-        c.set("negative_controls_spec", "SubAhead / SkipLog / AdvanceOnFail variants: TLC reported the expected invariant for each")
+                    design_findings.append("%s (%d-step schedule)" % (inv_name, len(cases[0])))
+                    schedules.append(dict(id=name, pageSize=page_size_of(job[2]), source="tlc-counterexample(pre-9ae9635 model):" + name, steps=cases[0]))
+                elif cases:
+                    schedules.append(dict(id=name, pageSize=2, source="tlc-negative-control:" + name, steps=cases[0]))
+            elif expect == "must_fail_temporal":
+                if not tv:
+                    raise vlib.Inconclusive("negative control %s: TLC did not refute the temporal property" % name)
+                design_findings.append("LiveAllAcceptedSinceReset")
+        c.set("negative_controls_spec", "SubAhead / SkipLog / AdvanceOnFail variants and the pre-9ae9635 model (JoinSubscriber=FALSE): "
+                                        "TLC reported the expected failure for each")
         if design_findings:
-            c.set("design_level_findings", design_findings)
-            c.note("design-level (model only): " + "; ".join(design_findings) +
-                   "; with JoinSubscriber=TRUE (a stop waits for the subscriber) every property holds")
+            c.set("pre_repair_model_refuted", design_findings)
 
         # ---- 3. schedules forced on the real code (TLC counterexamples, negative controls, samples)
         if not q:
@@ -498,7 +502,7 @@ def run(c):
         for name in ("find_persisted", "find_gap"):
             s = by_id.get(name)
             if s is not None and not s.get("findings"):
-                c.note("TLC counterexample %s was NOT reproduced on the real code (%s)" % (name, s.get("diverged") or "followed, no finding"))
+                c.note("counterexample %s of the pre-9ae9635 model is NOT reproducible on the code, as expected (%s)" % (name, s.get("diverged") or "followed, no finding"))
 
         # ---- 4. verdicts of the harness itself
         scen = rnd + sch
@@ -566,7 +570,7 @@ def run(c):
                           persisted=s["observation"]["persisted"], produced=s["observation"]["produced"], events=len(s["events"])))
         c.assume("one pipeline, one ledger, one exporter; graceful manager restarts (Manager.Stop then a new Manager over the same storage), no process crash")
         c.assume("the in-memory replication.Storage mirrors system/store.go: StorePipelineState and UpdatePipeline are unconditional single-row UPDATEs, reads see the last committed write")
-        c.assume("TLC bounds: <= %s logs, page size 1-2, <= %s exporter failures, <= 1 StopPipeline/StartPipeline, <= 1 ResetPipeline, <= 1 manager restart" % (("3", "1") if q else ("4", "2")))
+        c.assume("TLC bounds: <= %s logs, page size 1-2, <= %s exporter failures, <= 1 StopPipeline/StartPipeline, <= 1 ResetPipeline, <= 1 manager restart" % (("4", "1") if q else ("4", "2")))
         c.assume("exporter = recording drivers.Driver behind the real DriverFacade (no batcher); periodic Manager synchronisation disabled (sync period 1h)")
     finally:
         pool.shutdown(wait=False, cancel_futures=True)
